@@ -257,6 +257,8 @@ def run(model: RepoModel, rep, tier: str):
     rep.rule("C16.R4", "the dirty flag is cleared only by the refresher, which rebuilds the row cache from the store on "
                        "the same path; constructors never leave a shared cache marked clean", min_instances=2)
     rep.rule("C16.R5", "GIRBlockViewer index structures are written only while constructing", min_instances=5)
+    rep.rule("C16.R6", "the per-column equality index stores what its consumers dereference: row positions when the results are used "
+                       "with iloc/slice/_rows, labels when used with loc", min_instances=1)
 
     # ---- methods that mark on every path (summary fixpoint)
     always_marks: Set[str] = set()
@@ -449,6 +451,70 @@ def run(model: RepoModel, rep, tier: str):
         rep.holds("C16.R4", key, FILE, roles.init.node.lineno,
                   f"__init__ shares {len(shares)} cache object(s) from a source table but leaves the dirty flag set")
 
+    # ---- R6 position / label protocol of the indexer
+    indexer_fields = [a for a in roles.cache_fields if any(
+        isinstance(n, ast.Subscript) and is_self_attr(n.value, a) and isinstance(n.ctx, ast.Store)
+        for f in cls.methods.values() for n in walk_no_nested(f.node))]
+    for fld in indexer_fields:
+        # producer: the function that appends to self.<fld>[col][value]
+        for name, f in cls.methods.items():
+            alias = {n.targets[0].id for n in walk_no_nested(f.node) if isinstance(n, ast.Assign) and isinstance(n.targets[0], ast.Name)
+                     and isinstance(n.value, ast.Subscript) and is_self_attr(n.value.value, fld)}
+            for n in walk_no_nested(f.node):
+                if isinstance(n, ast.Call) and isinstance(n.func, ast.Attribute) and n.func.attr in ("append", "add") and n.args \
+                        and isinstance(n.func.value, ast.Subscript) and isinstance(n.func.value.value, ast.Name) \
+                        and n.func.value.value.id in alias and isinstance(n.args[0], ast.Name):
+                    var = n.args[0].id
+                    mode, why = "unknown", ""
+                    for lp in walk_no_nested(f.node):
+                        if isinstance(lp, ast.For) and any(isinstance(t, ast.Name) and t.id == var for t in ast.walk(lp.target)):
+                            it = lp.iter
+                            first = isinstance(lp.target, ast.Tuple) and isinstance(lp.target.elts[0], ast.Name) and lp.target.elts[0].id == var
+                            cn = call_name(it) if isinstance(it, ast.Call) else None
+                            if cn == "enumerate" and first and not (len(it.args) > 1 or it.keywords):
+                                mode, why = "position", f"`{norm(lp.target)} in {norm(it)}`"
+                            elif cn == "range":
+                                mode, why = "position", f"`{norm(it)}`"
+                            elif cn == "zip" and first and it.args and any(isinstance(x, ast.Attribute) and x.attr == "index" for x in ast.walk(it.args[0])):
+                                mode, why = "label", f"`{norm(lp.target)} in {norm(it)}`"
+                            elif isinstance(it, ast.Call) and isinstance(it.func, ast.Attribute) and it.func.attr in ("items", "iteritems") and first:
+                                mode, why = "label", f"`{norm(it)}`"
+                            elif cn == "enumerate" and first:
+                                mode, why = "offset-position", f"`{norm(it)}` (enumerate with a start offset)"
+                    # consumers
+                    cons = []
+                    for g in cls.methods.values():
+                        res_vars = {x.targets[0].id for x in walk_no_nested(g.node) if isinstance(x, ast.Assign)
+                                    and isinstance(x.targets[0], ast.Name) and isinstance(x.value, ast.Call)
+                                    and isinstance(x.value.func, ast.Attribute) and is_self_attr(x.value.func)
+                                    and any(isinstance(y, ast.Attribute) and is_self_attr(y, fld)
+                                            for y in ast.walk(cls.methods[x.value.func.attr].node)) if x.value.func.attr in cls.methods}
+                        for x in walk_no_nested(g.node):
+                            if isinstance(x, ast.Subscript) and isinstance(x.value, ast.Attribute) and x.value.attr in ("iloc", "loc") \
+                                    and any(isinstance(y, ast.Name) and y.id in res_vars for y in ast.walk(x.slice)):
+                                cons.append((g, "position" if x.value.attr == "iloc" else "label", x))
+                            if isinstance(x, ast.Call) and is_self_attr(x.func, "slice") and any(isinstance(y, ast.Name) and y.id in res_vars for a in x.args for y in ast.walk(a)):
+                                cons.append((g, "position", x))
+                    key = f"{FILE}::{f.qualname}::self.{fld} stores row positions"
+                    cmodes = {c[1] for c in cons}
+                    if mode == "unknown" or not cons:
+                        rep.unknown("C16.R6", key, FILE, n.lineno, f"producer mode {mode}, {len(cons)} consumers recognised")
+                    elif cmodes == {mode}:
+                        rep.holds("C16.R6", key, FILE, n.lineno, f"producer stores {mode}s ({why}); all {len(cons)} consumers dereference by {mode}")
+                    else:
+                        g, cm, x = cons[0]
+                        rep.violation("C16.R6", key, FILE, n.lineno,
+                                      f"{f.qualname} fills self.{fld} with {mode}s ({why}) but {g.qualname} dereferences the result by "
+                                      f"{cm} (`{norm(x)}`): after remove_rows/slice without reset_index the two differ and queries return "
+                                      f"wrong or out-of-range rows")
+                    for g, cm, x in cons[1:]:
+                        k2 = f"{FILE}::{g.qualname}::dereferences by {cm} `{norm(x)}`"
+                        if mode in ("position", "label"):
+                            (rep.holds if cm == mode else rep.violation)(
+                                "C16.R6", k2, FILE, x.lineno,
+                                f"consumer uses {cm}; producer stores {mode}" if cm == mode else
+                                f"{g.qualname} dereferences index results by {cm} but the index stores {mode}s")
+
     # ---- R5 GIRBlockViewer
     gm = model.module("util/gir_block.py")
     gv = gm.classes.get("GIRBlockViewer")
@@ -516,5 +582,8 @@ MUTANTS = [
     ("iter-no-refresh", FILE, _m_drop_call("__iter__", "refresh_rows"), "DataModel.__iter__"),
     ("access-no-refresh", FILE, _m_drop_call("access", "refresh_rows"), "DataModel.access"),
     ("get_rows-no-refresh", FILE, _m_drop_call("get_rows", "refresh_rows"), "DataModel.get_rows"),
+    ("indexer-stores-labels", FILE,
+     lambda src: __import__("sa.mutate", fromlist=["x"]).text_replace(src, "for idx_label, value in enumerate(column_data):", "for idx_label, value in zip(self._data.index, column_data):"),
+     "stores row positions"),
     ("slow_query_first-no-refresh", FILE, _m_drop_call("slow_query_first", "refresh_rows"), "DataModel.slow_query_first"),
 ]
